@@ -138,7 +138,8 @@ class Check:
     def finish(self):
         os.makedirs(EVIDENCE_DIR, exist_ok=True)
         for sig, (n, desc) in sorted(self.known_hits.items()):
-            print(f"KNOWN-FINDING: property={self.prop} {sig}: {desc} (seen {n}x in this run)")
+            what = self.findings.open[sig].get("description") or desc
+            print(f"KNOWN-FINDING: property={self.prop} {sig}: {what} (seen {n}x in this run; e.g. {str(desc)[:160]})")
         replay_paths = []
         if self.violations:
             d = os.path.join(REPLAY_DIR, self.prop)
